@@ -285,10 +285,147 @@ type Decls struct {
 	fresh int
 	// axioms attached to a symbol: emitted whenever the symbol occurs in a query
 	ax map[string][]string
+	// pattern facts: instantiated at render time for every ground application occurring in the query
+	//   "sel1:B"  (select B r)            args [r]
+	//   "sel2:B"  (select (select B a) i) args [a i]
+	//   "app:f"   (f a1 .. an)            args [a1 .. an]
+	pat map[string]func(args []string) string
+	// named abbreviations of large ground terms: emitted as define-fun in creation order
+	defs   map[string]*defn
+	byBody map[string]string
+}
+
+type defn struct {
+	sort, body string
+	ord        int
+}
+
+// Define abbreviates a large ground term by a name (define-fun); small terms and terms with bound variables are returned as they are
+func (d *Decls) Define(prefix, srt, body string) string {
+	if len(body) < 80 || strings.Contains(body, "?") {
+		return body
+	}
+	d.mu.Lock()
+	defer d.mu.Unlock()
+	if n, ok := d.byBody[srt+"|"+body]; ok {
+		return n
+	}
+	d.fresh++
+	n := fmt.Sprintf("%s!%d", sanitize(prefix), d.fresh)
+	d.defs[n] = &defn{sort: srt, body: body, ord: d.fresh}
+	d.byBody[srt+"|"+body] = n
+	d.m[n] = "(define)"
+	return n
 }
 
 func newDecls() *Decls {
-	return &Decls{m: map[string]string{}, ax: map[string][]string{}}
+	return &Decls{m: map[string]string{}, ax: map[string][]string{}, pat: map[string]func([]string) string{}, defs: map[string]*defn{}, byBody: map[string]string{}}
+}
+
+func (d *Decls) Pat(key string, f func(args []string) string) {
+	d.mu.Lock()
+	if _, ok := d.pat[key]; !ok {
+		d.pat[key] = f
+	}
+	d.mu.Unlock()
+}
+
+// patternFacts scans the texts for ground applications matching registered patterns and returns the instantiated facts
+func (d *Decls) patternFacts(texts []string) []string {
+	seen := map[string]bool{}
+	var out []string
+	d.mu.Lock()
+	defer d.mu.Unlock()
+	if len(d.pat) == 0 {
+		return nil
+	}
+	emit := func(key string, args []string) {
+		f, ok := d.pat[key]
+		if !ok {
+			return
+		}
+		for _, a := range args {
+			if strings.Contains(a, "?") {
+				return
+			}
+		}
+		k := key + "|" + strings.Join(args, "|")
+		if seen[k] {
+			return
+		}
+		seen[k] = true
+		if fact := f(args); fact != "true" && fact != "" {
+			out = append(out, fact)
+		}
+	}
+	for _, t := range texts {
+		scanApps(t, emit)
+	}
+	return out
+}
+
+// scanApps walks the s-expressions of text and reports pattern keys with argument texts
+func scanApps(s string, emit func(key string, args []string)) {
+	// iterative parse with a stack of list start positions and child spans
+	type frame struct {
+		start int
+		kids  [][2]int
+	}
+	var stack []frame
+	i := 0
+	for i < len(s) {
+		ch := s[i]
+		switch {
+		case ch == '(':
+			stack = append(stack, frame{start: i})
+			i++
+		case ch == ')':
+			if len(stack) == 0 {
+				i++
+				continue
+			}
+			fr := stack[len(stack)-1]
+			stack = stack[:len(stack)-1]
+			end := i + 1
+			if len(stack) > 0 {
+				stack[len(stack)-1].kids = append(stack[len(stack)-1].kids, [2]int{fr.start, end})
+			}
+			if len(fr.kids) >= 2 {
+				head := s[fr.kids[0][0]:fr.kids[0][1]]
+				if head == "select" && len(fr.kids) == 3 {
+					a1 := s[fr.kids[1][0]:fr.kids[1][1]]
+					a2 := s[fr.kids[2][0]:fr.kids[2][1]]
+					if a1[0] != '(' {
+						emit("sel1:"+a1, []string{a2})
+					} else if strings.HasPrefix(a1, "(select ") {
+						// (select B a)
+						inner := a1[8 : len(a1)-1]
+						if sp := strings.IndexByte(inner, ' '); sp > 0 && inner[0] != '(' {
+							emit("sel2:"+inner[:sp], []string{inner[sp+1:], a2})
+						}
+					}
+				} else if head[0] != '(' {
+					args := make([]string, 0, len(fr.kids)-1)
+					for _, k := range fr.kids[1:] {
+						args = append(args, s[k[0]:k[1]])
+					}
+					emit("app:"+head, args)
+				}
+			}
+			i++
+		case ch == ' ' || ch == '\n' || ch == '\t':
+			i++
+		default:
+			j := i
+			for j < len(s) && s[j] != '(' && s[j] != ')' && s[j] != ' ' && s[j] != '\n' && s[j] != '\t' {
+				j++
+			}
+			if len(stack) > 0 {
+				stack[len(stack)-1].kids = append(stack[len(stack)-1].kids, [2]int{i, j})
+			}
+			i = j
+		}
+	}
 }
 
 func (d *Decls) Const(name, srt string) string {
@@ -329,6 +466,19 @@ func (d *Decls) Axiom(sym, ax string) {
 	d.ax[sym] = append(d.ax[sym], ax)
 }
 
+// defBodies returns the bodies of all abbreviations reachable from texts
+func (d *Decls) defBodies(texts []string) []string {
+	var out []string
+	for _, s := range d.symbols(texts) {
+		d.mu.Lock()
+		if df, ok := d.defs[s]; ok {
+			out = append(out, df.body)
+		}
+		d.mu.Unlock()
+	}
+	return out
+}
+
 // symbols returns the declared symbols occurring in the given texts
 func (d *Decls) symbols(texts []string) []string {
 	seen := map[string]bool{}
@@ -356,6 +506,9 @@ func (d *Decls) symbols(texts []string) []string {
 				out = append(out, tok)
 				for _, a := range d.ax[tok] {
 					scan(a)
+				}
+				if df, ok := d.defs[tok]; ok {
+					scan(df.body)
 				}
 			}
 		}
@@ -389,6 +542,22 @@ func (d *Decls) render(q *Query) string {
 	texts := append([]string{}, q.Asserts...)
 	texts = append(texts, q.Goal)
 	texts = append(texts, q.Values...)
+	// bodies of the abbreviations used (transitively) take part in pattern matching
+	texts = append(texts, d.defBodies(texts)...)
+	facts := d.patternFacts(texts)
+	// facts may mention sibling terms (slice headers): one more round
+	facts2 := d.patternFacts(facts)
+	have := map[string]bool{}
+	for _, f := range facts {
+		have[f] = true
+	}
+	for _, f := range facts2 {
+		if !have[f] {
+			have[f] = true
+			facts = append(facts, f)
+		}
+	}
+	texts = append(texts, facts...)
 	syms := d.symbols(texts)
 	d.mu.Lock()
 	// sorts first (declare-sort lines are stored in m too under their own name)
@@ -399,7 +568,12 @@ func (d *Decls) render(q *Query) string {
 			b.WriteString(d.m[s] + "\n")
 		}
 	}
+	var dnames []string
 	for _, s := range syms {
+		if _, isDef := d.defs[s]; isDef {
+			dnames = append(dnames, s)
+			continue
+		}
 		if !strings.HasPrefix(d.m[s], "(declare-sort") {
 			b.WriteString(d.m[s] + "\n")
 		}
@@ -410,8 +584,16 @@ func (d *Decls) render(q *Query) string {
 			}
 		}
 	}
+	sort.Slice(dnames, func(i, j int) bool { return d.defs[dnames[i]].ord < d.defs[dnames[j]].ord })
+	for _, n := range dnames {
+		df := d.defs[n]
+		b.WriteString("(define-fun " + n + " () " + df.sort + " " + df.body + ")\n")
+	}
 	d.mu.Unlock()
 	for _, a := range axs {
+		b.WriteString("(assert " + a + ")\n")
+	}
+	for _, a := range facts {
 		b.WriteString("(assert " + a + ")\n")
 	}
 	for _, a := range q.Asserts {
@@ -431,11 +613,12 @@ func (d *Decls) render(q *Query) string {
 }
 
 type SolveResult struct {
-	Status string // unsat | sat | unknown | timeout | error
-	Solver string
-	Secs   float64
-	Output string
-	Tried  []string
+	Status    string // unsat | sat | unknown | timeout | error
+	Solver    string
+	Secs      float64
+	Output    string
+	Tried     []string
+	Candidate bool
 }
 
 type solverSpec struct {
